@@ -20,7 +20,7 @@ Entries == {"aperture_photometry", "do_photometry", "aperture_mask", "aperture_s
             "iterative_psf", "grouper", "psf_models", "make_model_image", "isophote", "calc_total_error", "utils", "morphology",
             "image_depth", "epsf", "epsf_weights", "aperture_mask_edge",
             "aperture_photometry_subpixel", "sky_apertures", "annuli", "fit_gaussian", "psf_matching", "datasets", "harmonics", "interpolators", "segment_cutouts"}
-Reps == {"ndarray", "view", "masked", "quantity"}
+Reps == {"ndarray", "view", "masked", "quantity", "f4"}      \* f4: single-precision arrays (dtype-dispatched code paths)
 Conds == {"clean", "nonfinite", "negative", "masked", "emptymask", "invalid"}
 \* entry points that take no image (their own argument kinds are varied by the adapter instead)
 NoImage == {"grouper", "psf_models", "make_model_image", "isophote", "source_mask"}
